@@ -43,6 +43,15 @@ def rule_units():
         elif isinstance(r, (list, tuple)):
             r = RewriteRuleSet(list(r))
         units[n] = r
+    for n in getattr(F, "__all__", []):  # rules.fusion exports nothing today; a future export is picked up here
+        r = getattr(F, n)
+        if isinstance(r, RewriteRule):
+            units[n] = RewriteRuleSet([r])
+        elif isinstance(r, RewriteRuleSet):
+            units[n] = r
+    if os.environ.get("VERIF_C05_FUSION_MODULES") != "1":
+        return units
+    # not exported (outside the property's quantifier): module-level rules of rules/fusion/*.py, on request only
     for m in pkgutil.iter_modules(F.__path__):
         if m.name.endswith("_test"):
             continue
